@@ -4,6 +4,9 @@ import core, e2e, canon
 from core import hx, unhx
 
 SECS = {'container': 'Container', 'volume': 'Volume', 'network': 'Network'}
+# paths (of generated trees) that are materialised as symbolic links to a regular file kept outside the search
+# directories: for discovery, shadowing and drop-ins a link to a file is that file (the model sees path -> content)
+LINKS = set()
 
 
 def mktree(rnd, base, with_dropins=True, broken=0.08):
@@ -30,6 +33,8 @@ def mktree(rnd, base, with_dropins=True, broken=0.08):
             if rnd.random() < broken:
                 body = 'garbage before section\n' + body
             files[os.path.join(d, n)] = body
+            if rnd.random() < 0.15:
+                LINKS.add(os.path.join(d, n))
         if not with_dropins:
             continue
         dn = [n + '.d']
@@ -53,6 +58,8 @@ def mktree(rnd, base, with_dropins=True, broken=0.08):
                     if rnd.random() < 0.05:
                         body = '[broken\n'
                     files[os.path.join(d, ddir, conf)] = body
+                    if rnd.random() < 0.1:
+                        LINKS.add(os.path.join(d, ddir, conf))
     return roots, files
 
 
@@ -64,8 +71,15 @@ def run_tree(roots, files, dry_run=True):
     """materialise and run the real binary; returns dict(exit, services sorted canonical texts, counts of error kinds, stderr)"""
     for r in roots:
         os.makedirs(r, exist_ok=True)
-    for p, c in files.items():
+    store = os.path.join(os.path.dirname(roots[0]), 'store')
+    for i, (p, c) in enumerate(files.items()):
         os.makedirs(os.path.dirname(p), exist_ok=True)
+        if p in LINKS:
+            os.makedirs(store, exist_ok=True)
+            with open(os.path.join(store, 'f%d' % i), 'w') as f:
+                f.write(c)
+            os.symlink(os.path.join(store, 'f%d' % i), p)
+            continue
         with open(p, 'w') as f:
             f.write(c)
     out = os.path.join(os.path.dirname(roots[0]), 'out')
